@@ -30,18 +30,19 @@ PathStrOfTree(t) == (IF t.lead THEN "::" ELSE "") \o JoinWith(t.segs, "::")
 \* rule = [src: path tree (args = declared source generics as single-ident paths), dst: path tree]
 SubFor(S, path) == LET idx == {i \in DOMAIN S.subs : S.subs[i].src.segs = path} IN
                    IF idx = {} THEN 0 ELSE CHOOSE i \in idx : \A j \in idx : j <= i   \* last inserted wins
-IsPassThrough(rule) == Len(rule.src.args) = 0 /\ Len(rule.dst.args) = 0
+IsPassThrough(rule) == Len(rule.src.args) = 0 /\ rule.dst.k = "path" /\ Len(rule.dst.args) = 0
 IdentOf(t) == IF t.k = "path" /\ ~t.lead /\ Len(t.segs) = 1 /\ Len(t.args) = 0 THEN t.segs[1] ELSE ""
 \* replace_path_params_recursively: only inside angle-bracketed path arguments
 RECURSIVE ReplaceArgs(_, _)
-ReplaceArgs(t, map) ==   \* map: Seq of [name, ty]
-  IF t.k # "path" THEN t
-  ELSE [t EXCEPT !.args = [i \in DOMAIN @ |->
-          LET a == @[i] IN
-          IF a.k # "path" THEN a
-          ELSE IF IdentOf(a) # "" /\ GenvHas(map, IdentOf(a))
-               THEN map[CHOOSE m \in DOMAIN map : map[m].name = IdentOf(a) /\ \A m2 \in DOMAIN map : map[m2].name = IdentOf(a) => m <= m2].ty
-          ELSE ReplaceArgs(a, map)]]
+ReplaceOne(a, map) ==
+  IF a.k \notin {"path", "qpath"} THEN a
+  ELSE IF IdentOf(a) # "" /\ GenvHas(map, IdentOf(a))
+       THEN map[CHOOSE m \in DOMAIN map : map[m].name = IdentOf(a) /\ \A m2 \in DOMAIN map : map[m2].name = IdentOf(a) => m <= m2].ty
+  ELSE ReplaceArgs(a, map)
+ReplaceArgs(t, map) ==   \* map: Seq of [name, ty]; every segment's angle-bracketed arguments are visited
+  IF t.k = "path" THEN [t EXCEPT !.args = [i \in DOMAIN @ |-> ReplaceOne(@[i], map)]]
+  ELSE IF t.k = "qpath" THEN [t EXCEPT !.segargs = [sg \in DOMAIN @ |-> [i \in DOMAIN @[sg] |-> ReplaceOne(@[sg][i], map)]]]
+  ELSE t
 ApplySub(rule, params) ==
   IF IsPassThrough(rule) THEN [rule.dst EXCEPT !.args = params]
   ELSE LET srcIdents == [i \in DOMAIN rule.src.args |-> IdentOf(rule.src.args[i])]
@@ -130,6 +131,7 @@ RP(reg, S, id, isField, pp, orig) ==
 RECURSIVE HasBigInt(_)
 HasBigInt(t) == CASE t.k = "path" -> (t.lead /\ t.segs \in {<<"core", "primitive", "u256">>, <<"core", "primitive", "i256">>})
                                      \/ \E i \in DOMAIN t.args : HasBigInt(t.args[i])
+                  [] t.k = "qpath" -> \E sg \in DOMAIN t.segargs : \E i \in DOMAIN t.segargs[sg] : HasBigInt(t.segargs[sg][i])
                   [] t.k = "tup" -> \E i \in DOMAIN t.elems : HasBigInt(t.elems[i])
                   [] t.k = "arr" -> HasBigInt(t.of)
                   [] OTHER -> FALSE
